@@ -346,6 +346,15 @@ def rule_steps(ctx):
     if n_cons == 0:
         r.ok(f"{C.BASIC}::C20-STEPS::none", C.BASIC, "no fixed-arity consumer of a simplifying "
              "optimizer's path in scope")
+    if not getattr(ctx, "_is_positive_example", False) and not r.violations:
+        r.note(C.positive_example(
+            ctx, rule_steps,
+            [("cotengra/pathfinders/path_compressed_greedy.py",
+              "def greedy_compressed(inputs, output, size_dict, memory_limit=None, **kwargs):",
+              "def _c20_positive_example(inputs, output, size_dict):\n"
+              "    return [(a, b) for a, b in ssa_greedy_optimize(inputs, output, size_dict)]\n\n\n"
+              "def greedy_compressed(inputs, output, size_dict, memory_limit=None, **kwargs):")],
+            "_c20_positive_example"))
     return r
 
 
